@@ -90,8 +90,10 @@ Proof. exact finished_event_sources. Qed.
 (* ... the host sends exactly one per snapshot, LAST on the ordered link ... *)
 Theorem C15_snapshot_then_finished_last :
   forall pr c,
+    let pre := queued_msgs pr in      (* repair of S21: the detected, unsent component changes go out first, to every client *)
     let ms := (build_full_sync pr).2 in
-    p_out (apply_cmd pr (CSendInitialSync c)) = p_out pr ++ ((fun m => (c, m)) <$> ms) ++ [(c, MFinInit)]
+    p_out (apply_cmd pr (CSendInitialSync c)) = p_out pr ++ pre ++ ((fun m => (c, m)) <$> ms) ++ [(c, MFinInit)]
+    /\ Forall (fun x => is_fin x.2 = false) pre
     /\ Forall (fun m => is_fin m = false) ms.
 Proof. exact send_initial_sync_batch. Qed.
 
